@@ -538,6 +538,62 @@ static size_t get_value_size(carquet_physical_type_t type, int32_t type_length) 
 }
 
 /* ============================================================================
+ * Helper: read and parse a page header (fread path)
+ * ============================================================================
+ * Page headers have no fixed size (statistics can make them long), so the
+ * read window grows until the header parses or the file ends.
+ */
+
+#define CARQUET_PAGE_HEADER_WINDOW      256
+#define CARQUET_PAGE_HEADER_WINDOW_MAX  (16 * 1024 * 1024)
+
+static carquet_status_t read_page_header_fread(
+    FILE* file,
+    int64_t offset,
+    parquet_page_header_t* page_header,
+    size_t* header_size,
+    carquet_error_t* error) {
+
+    size_t window = CARQUET_PAGE_HEADER_WINDOW;
+
+    for (;;) {
+        uint8_t* header_buf = malloc(window);
+        if (!header_buf) {
+            CARQUET_SET_ERROR(error, CARQUET_ERROR_OUT_OF_MEMORY, "Failed to allocate page header buffer");
+            return CARQUET_ERROR_OUT_OF_MEMORY;
+        }
+
+        if (fseek(file, (long)offset, SEEK_SET) != 0) {
+            free(header_buf);
+            CARQUET_SET_ERROR(error, CARQUET_ERROR_FILE_SEEK, "Failed to seek to page header");
+            return CARQUET_ERROR_FILE_SEEK;
+        }
+
+        size_t header_read = fread(header_buf, 1, window, file);
+        if (header_read < 8) {
+            free(header_buf);
+            CARQUET_SET_ERROR(error, CARQUET_ERROR_FILE_READ, "Failed to read page header");
+            return CARQUET_ERROR_FILE_READ;
+        }
+
+        carquet_status_t status = parquet_parse_page_header(
+            header_buf, header_read, page_header, header_size, error);
+        free(header_buf);
+
+        /* A header cut off by the window fails to parse in one way or
+         * another (truncated field, list longer than the data left, ...):
+         * retry with a larger window, unless the file itself ended inside
+         * this one */
+        if (status != CARQUET_OK && header_read == window &&
+            window < CARQUET_PAGE_HEADER_WINDOW_MAX) {
+            window *= 8;
+            continue;
+        }
+        return status;
+    }
+}
+
+/* ============================================================================
  * Helper: Load dictionary page (mmap path)
  * ============================================================================
  */
@@ -552,12 +608,18 @@ static carquet_status_t load_dictionary_page_mmap(
 
     /* Parse page header directly from mmap */
     int64_t dict_offset = col_meta->dictionary_page_offset;
+    if (dict_offset < 0 || (uint64_t)dict_offset >= (uint64_t)file_reader->file_size) {
+        CARQUET_SET_ERROR(error, CARQUET_ERROR_INVALID_PAGE, "Dictionary page offset outside the file");
+        return CARQUET_ERROR_INVALID_PAGE;
+    }
     const uint8_t* header_ptr = mmap_data + dict_offset;
 
+    /* The header may be of any size: let the parser see the rest of the file */
     parquet_page_header_t page_header;
     size_t header_size;
     carquet_status_t status = parquet_parse_page_header(
-        header_ptr, 256, &page_header, &header_size, error);
+        header_ptr, file_reader->file_size - (size_t)dict_offset,
+        &page_header, &header_size, error);
     if (status != CARQUET_OK) {
         return status;
     }
@@ -642,24 +704,11 @@ static carquet_status_t load_dictionary_page_fread(
     FILE* file = file_reader->file;
     const parquet_column_metadata_t* col_meta = reader->col_meta;
 
-    /* Seek to dictionary page */
-    if (fseek(file, col_meta->dictionary_page_offset, SEEK_SET) != 0) {
-        CARQUET_SET_ERROR(error, CARQUET_ERROR_FILE_SEEK, "Failed to seek to dictionary");
-        return CARQUET_ERROR_FILE_SEEK;
-    }
-
     /* Read page header */
-    uint8_t header_buf[256];
-    size_t header_read = fread(header_buf, 1, sizeof(header_buf), file);
-    if (header_read < 8) {
-        CARQUET_SET_ERROR(error, CARQUET_ERROR_FILE_READ, "Failed to read dictionary header");
-        return CARQUET_ERROR_FILE_READ;
-    }
-
     parquet_page_header_t page_header;
     size_t header_size;
-    carquet_status_t status = parquet_parse_page_header(
-        header_buf, header_read, &page_header, &header_size, error);
+    carquet_status_t status = read_page_header_fread(
+        file, col_meta->dictionary_page_offset, &page_header, &header_size, error);
     if (status != CARQUET_OK) {
         return status;
     }
@@ -776,12 +825,18 @@ static carquet_status_t load_next_page_mmap(
 
     /* Parse page header directly from mmap */
     int64_t page_offset = reader->data_start_offset + reader->current_page;
+    if (page_offset < 0 || (uint64_t)page_offset >= (uint64_t)file_reader->file_size) {
+        CARQUET_SET_ERROR(error, CARQUET_ERROR_INVALID_PAGE, "Page offset outside the file");
+        return CARQUET_ERROR_INVALID_PAGE;
+    }
     const uint8_t* header_ptr = mmap_data + page_offset;
 
+    /* The header may be of any size: let the parser see the rest of the file */
     parquet_page_header_t page_header;
     size_t header_size;
     carquet_status_t status = parquet_parse_page_header(
-        header_ptr, 256, &page_header, &header_size, error);
+        header_ptr, file_reader->file_size - (size_t)page_offset,
+        &page_header, &header_size, error);
     if (status != CARQUET_OK) {
         return status;
     }
@@ -971,25 +1026,12 @@ static carquet_status_t load_next_page_fread(
         }
     }
 
-    /* Seek to data page */
-    int64_t data_offset = reader->data_start_offset;
-    if (fseek(file, data_offset + reader->current_page, SEEK_SET) != 0) {
-        CARQUET_SET_ERROR(error, CARQUET_ERROR_FILE_SEEK, "Failed to seek to data page");
-        return CARQUET_ERROR_FILE_SEEK;
-    }
-
     /* Read page header */
-    uint8_t header_buf[256];
-    size_t header_read = fread(header_buf, 1, sizeof(header_buf), file);
-    if (header_read < 8) {
-        CARQUET_SET_ERROR(error, CARQUET_ERROR_FILE_READ, "Failed to read page header");
-        return CARQUET_ERROR_FILE_READ;
-    }
-
+    int64_t data_offset = reader->data_start_offset;
     parquet_page_header_t page_header;
     size_t header_size;
-    carquet_status_t status = parquet_parse_page_header(
-        header_buf, header_read, &page_header, &header_size, error);
+    carquet_status_t status = read_page_header_fread(
+        file, data_offset + reader->current_page, &page_header, &header_size, error);
     if (status != CARQUET_OK) {
         return status;
     }
